@@ -872,3 +872,24 @@ Proof.
   repeat (first [split | apply Forall_cons | apply Forall_nil]);
     try discriminate; try reflexivity; try (intro q; apply ex_rw); try (left; reflexivity).
 Qed.
+
+(* names denote DISTINCT objects: an upload to D/f leaves every sibling g <> f of that directory -- whatever g
+   is, in particular f with a suffix or a prefix -- exactly as it was (nothing is created, changed or removed
+   under another name on the way) *)
+Theorem nt_stor_sibling_untouched users ui u (Hu : nth_error users ui = Some u) w cwd pf D f chD bytes :
+  ready ui w cwd -> valid_path pf -> target cwd pf = D ++ [f] -> rw u (D ++ [f]) ->
+  lookup D (w_fs w) = Some (NDir chD) -> assoc_t f chD = None ->
+  exists w' outs,
+    irun users w (prep ++ [ILine (client_cmd (t_of "STOR") pf) (DSend bytes)] ++
+                  prep ++ [ILine (client_cmd (t_of "RETR") pf) DNone]) = Some (w', outs) /\
+    lookup (D ++ [f]) (w_fs w') = Some (NFile bytes) /\
+    forall g, g <> f -> lookup (D ++ [g]) (w_fs w') = lookup (D ++ [g]) (w_fs w).
+Proof.
+  intros Hrd Hp Ht Hrw HD Hf.
+  destruct (nt_stor_retr users ui u Hu w cwd pf D f chD bytes Hrd Hp Ht Hrw HD Hf)
+    as [w' [o1 [o2 [o3 [o4 [o5 [o6 [E [_ [_ [_ [_ [HD' [Hfile _]]]]]]]]]]]]]].
+  exists w', [o1; o2; o3; o4; o5; o6]. split; [exact E|]. split; [exact Hfile|].
+  intros g Hg. rewrite (lookup_child D g _ _ HD'), (lookup_child D g _ _ HD).
+  apply assoc_snoc_other. destruct (text_eqb g f) eqn:Eg; [|reflexivity].
+  apply text_eqb_eq in Eg. contradiction.
+Qed.
